@@ -182,8 +182,12 @@ class Polygon(Shape2D):
         # desired polygon, it might be necessary to implement more robust
         # checks based on something like
         # http://www.cs.cmu.edu/~quake/robust.html
+        # The tolerance is relative to the size of the polygon: measuring it against the
+        # distance of the plane from the origin (or on an absolute scale) would accept
+        # visibly non-planar vertices of polygons that are small or far from the origin.
+        extent = np.max(np.ptp(self.vertices, axis=0))
         for v in self.vertices:
-            if not np.isclose(self._normal.dot(v), d, planar_tolerance):
+            if not np.abs(self._normal.dot(v) - d) <= planar_tolerance * extent:
                 raise ValueError("Not all vertices are coplanar.")
 
         if test_simple:
